@@ -323,19 +323,29 @@ func ruleNoShallowCopy(w *World, r *RuleResult) {
 				if k := countKey(r, key); k > 0 {
 					key = fmt.Sprintf("%s #%d", key, k+1)
 				}
-				if name == "(*BigInt).Set" {
-					inlineGuard := false
-					for _, g := range guardsAt(st.Block()) {
-						if c, ok := g.Cond.(*ssa.Call); ok && g.Val && w.calleeName(c) == "(*BigInt).isInline" && c.Common().Args[0] == ssa.Value(f.Params[1]) {
-							inlineGuard = true
+				if typeIs(st.Val.Type(), apdPath, "BigInt") && !isPointer(st.Val.Type()) {
+				// a BigInt copied whole where its source is known to be inline (isInline() holds of the very
+				// pointer loaded from): the value lives in the words, no heap big.Int is shared
+				inlineGuard := false
+				for _, g := range guardsAt(st.Block()) {
+					cond, val := g.Cond, g.Val
+					for {
+						u, ok := cond.(*ssa.UnOp)
+						if !ok || u.Op != token.NOT {
+							break
 						}
+						cond, val = u.X, !val
 					}
-					if inlineGuard {
-						r.ok(key, w.instrPos(st), "under x.isInline(): the value lives in the inline array, no heap big.Int is shared", true)
-						continue
+					if c, ok := cond.(*ssa.Call); ok && val && w.calleeName(c) == "(*BigInt).isInline" && c.Common().Args[0] == ld.X {
+						inlineGuard = true
 					}
 				}
-				r.bad(key, w.instrPos(st), "a value owning a heap *big.Int is copied by plain struct assignment from "+w.exprOf(f, ld.X).String()+": for coefficients above 128 bits source and copy share one big.Int, so writing one modifies the other (operand mutation / data race)")
+				if inlineGuard {
+					r.ok(key, w.instrPos(st), "under isInline() of the source: the value lives in the inline array, no heap big.Int is shared", true)
+					continue
+				}
+			}
+			r.bad(key, w.instrPos(st), "a value owning a heap *big.Int is copied by plain struct assignment from "+w.exprOf(f, ld.X).String()+": for coefficients above 128 bits source and copy share one big.Int, so writing one modifies the other (operand mutation / data race)")
 			}
 		}
 	}
